@@ -196,6 +196,8 @@ MUST_FIRE = [
      "        else:\n            self.weights_ = None\n", ""),
     ("sliding-window-head-truncation", ["C13"], ["R13.3"], P + "classifier/_wrapper.py",
      "    def _add_samples(self, fit_func, X, y, sample_weight=None):\n", "    def _add_samples(self, fit_func, X, y, sample_weight=None):\n        if self.window_size is not None and len(X) > self.window_size:\n            X, y = X[: self.window_size], y[: self.window_size]\n"),
+    ("qbc-committee-list-shallow-copy", ["C06", "C05"], ["R6.4", "R5.3"], P + "pool/_query_by_committee.py",
+     "est_arr = copy.deepcopy(ensemble)", "est_arr = copy.copy(ensemble)"),
     # ---- C03
     ("split-set-state-deleted", ["C03"], ["R3"], BZ,
      "        self.random_state_.set_state(random_state_state)\n", "        pass\n"),
